@@ -428,6 +428,15 @@ m("auth-credential-ignores-host", ["C16"],
 m("auth-no-coalescing", ["C16"],
   ("registry/remote/auth/cache.go", """	statusValue, _ := cc.status.LoadOrStore(statusKey, syncutil.NewOnce())""", """	statusValue, _ := cc.status.LoadOrStore(statusKey, syncutil.NewOnce())
 	statusValue = syncutil.NewOnce()"""))
+m("auth-fallback-cache-returns-secondary-result", ["C16"],
+  ("registry/remote/auth/cache.go", """	if _, err := fc.secondary.Set(ctx, registry, scheme, key, func(ctx context.Context) (string, error) {
+		return token, nil
+	}); err != nil {
+		return "", err
+	}
+	return token, nil""", """	return fc.secondary.Set(ctx, registry, scheme, key, func(ctx context.Context) (string, error) {
+		return token, nil
+	})"""))
 m("auth-token-key-ignores-scopes", ["C16"],
   ("registry/remote/auth/client.go", """			attemptedKey = strings.Join(scopes, " ")
 			token, err := cache.GetToken(ctx, host, SchemeBearer, attemptedKey)""", """			attemptedKey = strings.Join(scopes, " ")
